@@ -165,6 +165,12 @@ func tIte(c, a, b Term) Term {
 	return Term{app("ite", c.S, a.S, b.S), a.Sort}
 }
 
+// sidx(off, i): position of element i of a slice in its backing array; an
+// uninterpreted function (axiom: off + i) so that quantifier triggers contain no arithmetic.
+func sidx(sl Term, i Term) Term {
+	return Term{app("sidx", app("Slice_off", sl.S), i.S), sInt}
+}
+
 func tSelect(a, i Term) Term {
 	// (Array Int X) -> X
 	s := strings.TrimSpace(a.Sort)
@@ -393,7 +399,7 @@ func (r *TypeReg) preamble() string {
 	b.WriteString("(declare-sort Str 0)\n")
 	b.WriteString("(declare-fun strlen (Str) Int)\n")
 	b.WriteString("(declare-datatypes ((Slice 0)) (((mk_Slice (Slice_arr Int) (Slice_off Int) (Slice_len Int) (Slice_cap Int)))))\n")
-	b.WriteString("(define-fun wfSlice ((s Slice)) Bool (and (<= 0 (Slice_arr s)) (<= 0 (Slice_off s)) (<= 0 (Slice_len s)) (<= (Slice_len s) (Slice_cap s)) (=> (= (Slice_arr s) 0) (and (= (Slice_len s) 0) (= (Slice_cap s) 0)))))\n")
+	b.WriteString("(define-fun wfSlice ((s Slice)) Bool (and (<= 0 (Slice_arr s)) (<= 0 (Slice_off s)) (<= 0 (Slice_len s)) (<= (Slice_len s) (Slice_cap s)) (<= (Slice_cap s) 72057594037927936) (=> (= (Slice_arr s) 0) (and (= (Slice_len s) 0) (= (Slice_cap s) 0)))))\n")
 	// struct datatypes in dependency order (order of completion of registration)
 	for _, name := range r.order {
 		si := r.structs[name]
@@ -407,6 +413,7 @@ func (r *TypeReg) preamble() string {
 		}
 		fmt.Fprintf(&b, "(declare-datatypes ((%s 0)) (((%s %s))))\n", si.name, si.ctor(), strings.Join(fs, " "))
 	}
+	b.WriteString("(declare-fun sidx (Int Int) Int)\n(assert (forall ((o Int) (i Int)) (! (= (sidx o i) (+ o i)) :pattern ((sidx o i)))))\n")
 	b.WriteString("(declare-fun mulI (Int Int) Int)\n")
 	b.WriteString(ufArithAxioms)
 	// string literals
